@@ -440,9 +440,10 @@ class TestSuiteWriter:
             exc_types = self._per_statement_exceptions(
                 tc, module_name, project_path, subject_properties
             )
-            if any(e is not None for e in exc_types):
-                needs_pytest = True
             func, func_used_exc_types = self._build_test_function(idx, tc, exc_types)
+            # pytest is referenced by raises/xfail wrappers and by float assertions (pytest.approx)
+            if any(e is not None for e in exc_types) or "pytest." in cst.Module(body=[func]).code:
+                needs_pytest = True
             used_exc_types.update(func_used_exc_types)
             functions.append(func)
 
